@@ -236,11 +236,11 @@ def conditions(tier: str, seed: int) -> typing.List[Cond]:
     thorough = tier == "thorough"
     out = []  # type: typing.List[Cond]
     for shape in SHAPES:
-        ms = LADDER if thorough else [3, rnd.choice(LADDER[3:])]
+        ms = [3, LADDER[3], LADDER[5], LADDER[7]] if thorough else [3, rnd.choice(LADDER[3:])]
         for m in ms:
             if "'m'" not in repr(SHAPES[shape]) and m != ms[0]:
                 continue
-            for r in (range(32) if thorough else rnd.sample(range(32), 2)):
+            for r in ([0, 1, 5, 8, 13, 16, 24, 31] if thorough else rnd.sample(range(32), 2)):
                 out.append(Cond(PROP, "c16.work", make_work, {"shape": shape, "m": m, "r": r}, {"q": int},
                             assumptions=["capacity (or extent in bytes) n = 32*q + %d: every such integer in [1, 2**63 - 1]; "
                                          "second capacity m = %d" % (r, m)],
